@@ -151,6 +151,13 @@ def join_blocks(
     module = block1.module
     assert ir and module and block2.section
 
+    if not block1.size:
+        # The joined block will have block2's contents, so symbols at the end
+        # of block2 need to stay at the end of the joined block.
+        for sym in tuple(cache.reference_cache.get_references(block2)):
+            if sym.at_end:
+                cache.reference_cache.set_referent(sym, block1, True)
+
     cache.reference_cache.retarget_references(
         block2, block1, bool(block1.size)
     )
